@@ -16,17 +16,20 @@
      headers that were written, the track's TRACK_*_HEAD chunk exists, nothing written on the track yet) and every
      sequence of calls on ONE track from there (rf_do = the bodies of jls_wr_fsr / jls_wr_fsr_omit_data, rt_rec = the
      bodies of jls_wr_annotation / jls_wr_utc: refine_api_ theorems), followed by the track's close.  The states reached by the
-     model after jls_wr_open; jls_wr_source_def; jls_wr_signal_def satisfy the invariant (examples at the end).  NOT proved:
-     that the invariant is preserved by calls on OTHER tracks / signals interleaved in between (the lifting to arbitrary
-     programs of wm_run_full); the theorems are stated with a filter (rf_mine / rt_mine: tag and signal id) so that they
-     are the statements needed for that lifting.
+     model after jls_wr_open; jls_wr_source_def; jls_wr_signal_def satisfy the invariant (examples at the end).  The
+     theorems are stated with a filter (rf_mine / rt_mine: tag and signal id) so that they are the statements needed for
+     the lifting to programs of wm_run_full.
+   A is LIFTED TO WHOLE PROGRAMS for a partial class (refine_prog_fsr_partial, RefineProg.v): one FSR signal receives
+     sample data, no annotation / UTC call, any other calls interleaved.  NOT proved: the lifting for programs with sample
+     data on several signals, and the lifting of C (programs with annotation / UTC calls); B is about the blocks handed to
+     wr_data, which A's chunk relation ties to the DATA payloads, so B lifts with A.
    D (definition payloads, return codes) and E (acceptance) are for WHOLE PROGRAMS (wm_run_full).
    Nothing here changes a model; summary VALUES (summ1 / summN oracles) are not related to SummQ (C02's subject): the
    SUMMARY chunks are related in tag, level, timestamp, entry count and length only. *)
 From Coq Require Import NArith ZArith List Bool.
 From JLS Require Import Generated CrcDefs Spec Format WmRaw WmCore WmTs WmFsr WriterModel WmProofs
   PyramidModel TsModel FsrPackModel FsrPackProofs DefsModel
-  RefineLog RefineFsr RefinePyr RefinePyr2 RefineBits RefineBits2 RefineDefs RefineTs RefineExamples.
+  RefineLog RefineFsr RefinePyr RefinePyr2 RefineBits RefineBits2 RefineDefs RefineTs RefineExamples RefineProg.
 Import ListNotations.
 Local Open Scope N_scope.
 
@@ -220,6 +223,74 @@ Example refine_fsr_pyramid_example :
 Proof. exact rx_fsr_example. Qed.
 Print Assumptions refine_fsr_pyramid_example.
 
+(* ---- A, lifted to WHOLE PROGRAMS (partial class) ----
+   programs of wm_run_full = p1 ++ WSig d0 :: p2 in which signal sid = sg_id d is (successfully) defined by the call
+   WSig d0, sample data is written to signal sid only (rp_ok: every WFsr names sid; p1 may not define sid, so the WFsr
+   calls of p1 are all rejected), and no annotation / UTC call is made; otherwise ANY calls in any order: source and
+   signal definitions (other signals of any type, each of which writes its TRACK_*_DEF / _HEAD chunks between the
+   chunks of signal sid), user data, flushes, omit calls on any signal, rejected calls of every kind. *)
+Theorem refine_vocabulary_prog_is :
+  (forall sid o, rp_ok sid o =
+     match o with
+     | WFsr s _ _ => s = sid
+     | WAnno _ _ => False
+     | WUtc _ _ _ => False
+     | WUd u => N.of_nat (length (ud_data u)) + 1 < 4294967296
+     | _ => True
+     end) /\
+  (forall sid, rp_proj sid [] = []) /\
+  (forall sid o r, rp_proj sid (o :: r) =
+     match o with
+     | WFsr s sample_id samples => if s =? sid then RfData sample_id samples :: rp_proj sid r else rp_proj sid r
+     | WOmit s en => if s =? sid then RfOmit en :: rp_proj sid r else rp_proj sid r
+     | _ => rp_proj sid r
+     end).
+Proof. exact rp_vocab_prog. Qed.
+Print Assumptions refine_vocabulary_prog_is.
+
+(* the FSR chunks of signal sid in the COMPLETE backend log of the program (open ... close) are PyramidModel's disk for
+   the calls of the program on that signal, and the run does not fault *)
+Theorem refine_prog_fsr_partial : forall summ1 summN d0 d pos0 p1 p2 stf,
+  (0 < pos0)%Z -> sg_id d < 256 -> sg_id d <> 0 -> sg_type d = JLS_SIGNAL_TYPE_FSR -> 0 < sg_spd d ->
+  (dt_bits (sg_dtype d) < 8 \/ dt_bits (sg_dtype d) mod 8 = 0) ->
+  0 < wm_fill_buf_samples (sg_dtype d) ->
+  32 * sg_eps d + 16 < 4294967296 -> 8 * sg_sumdf d + 16 < 4294967296 ->
+  16 + (sg_spd d * dt_bits (sg_dtype d) + 7) / 8 < 4294967296 ->
+  let sid := sg_id d in
+  let p := p1 ++ WSig d0 :: p2 in
+  Forall (rp_ok sid) p ->
+  Forall (fun o => match o with WSig d' => sg_id d' <> sid | _ => True end) p1 ->
+  let st1 := fst (wm_steps summ1 summN wm_api_open p1 []) in
+  snd (wm_api_signal_def st1 d0) = 0 -> wm_sig_align d0 = Some d ->
+  let ops := rp_proj sid p2 in
+  py_srun (rf_pd d) (dt_bits (sg_dtype d) <=? 8) (rf_t0 ops) pos0 (rf_script d rf_bs0 ops) = PyOk stf ->
+  let stF := fst (wm_run_full summ1 summN p) in
+  wm_st_fault stF = false /\
+  exists cs, filter (rf_mine d) (rf_chunks (wm_st_log stF)) = cs /\
+    Forall2 (rf_chunk_rel d pos0 (rf_t0 ops) (map rc_off cs) (rf_blocks d rf_bs0 ops)) cs (pw_disk stf).
+Proof. exact rp_prog_fsr_partial. Qed.
+Print Assumptions refine_prog_fsr_partial.
+
+Example refine_prog_fsr_example :
+  (0 < 1)%Z /\ sg_id rpx_d < 256 /\ sg_id rpx_d <> 0 /\ sg_type rpx_d = JLS_SIGNAL_TYPE_FSR /\ 0 < sg_spd rpx_d /\
+  (dt_bits (sg_dtype rpx_d) < 8 \/ dt_bits (sg_dtype rpx_d) mod 8 = 0) /\
+  0 < wm_fill_buf_samples (sg_dtype rpx_d) /\ 32 * sg_eps rpx_d + 16 < 4294967296 /\ 8 * sg_sumdf rpx_d + 16 < 4294967296 /\
+  16 + (sg_spd rpx_d * dt_bits (sg_dtype rpx_d) + 7) / 8 < 4294967296 /\
+  Forall (rp_ok (sg_id rpx_d)) (rpx_p1 ++ WSig rpx_sig :: rpx_p2) /\
+  Forall (fun o => match o with WSig d' => sg_id d' <> sg_id rpx_d | _ => True end) rpx_p1 /\
+  snd (wm_api_signal_def (fst (wm_steps wm_zero_summ1 wm_zero_summN wm_api_open rpx_p1 [])) rpx_sig) = 0 /\
+  wm_sig_align rpx_sig = Some rpx_d /\
+  exists stf, py_srun (rf_pd rpx_d) (dt_bits (sg_dtype rpx_d) <=? 8) (rf_t0 (rp_proj (sg_id rpx_d) rpx_p2)) 1
+                (rf_script rpx_d rf_bs0 (rp_proj (sg_id rpx_d) rpx_p2)) = PyOk stf /\
+    length (pw_disk stf) = 10%nat /\
+    snd (wm_run_full wm_zero_summ1 wm_zero_summN (rpx_p1 ++ WSig rpx_sig :: rpx_p2)) = [0; 0; 0; 16; 0; 0; 0; 0; 3; 0; 17; 0; 17] /\
+    map (fun c => (rc_tag c, fm_meta_level (rc_meta c)))
+        (filter (rf_mine rpx_d) (rf_chunks (wm_st_log (fst (wm_run_full wm_zero_summ1 wm_zero_summN (rpx_p1 ++ WSig rpx_sig :: rpx_p2)))))) =
+    [(34, 0); (34, 0); (34, 0); (35, 1); (36, 1); (34, 0); (35, 1); (36, 1); (35, 2); (36, 2)] /\
+    length (rf_chunks (wm_st_log (fst (wm_run_full wm_zero_summ1 wm_zero_summN (rpx_p1 ++ WSig rpx_sig :: rpx_p2))))) = 33%nat.
+Proof. exact rp_prog_example. Qed.
+Print Assumptions refine_prog_fsr_example.
+
 (* ------------------------------------------------------------------ B. FSR data *)
 (* the packing of the byte-exact model (an accumulator for sub-byte widths, little-endian bytes otherwise) is Spec.pack *)
 Theorem refine_pack_is_spec_pack : forall w l, (w < 8 \/ w mod 8 = 0) -> wm_pack w l = pack w l.
@@ -242,7 +313,7 @@ Theorem refine_vocabulary_fp_blocks_is :
   (forall w spd first k, rb_fp_blocks w spd first k [] = []) /\
   (forall w spd first k b r, rb_fp_blocks w spd first k (b :: r) =
      ((first + Z.of_nat k * Z.of_N spd)%Z, N.of_nat (length b), pack w b) :: rb_fp_blocks w spd first (S k) r).
-Proof. split; reflexivity. Qed.
+Proof. exact rb_vocab_fp_blocks. Qed.
 Print Assumptions refine_vocabulary_fp_blocks_is.
 
 (* ... and, packed, exactly the blocks of FsrPackModel's writer (bit-level block buffer, any initial buffer content)
@@ -423,3 +494,13 @@ Theorem refine_run_accept : forall summ1 summN p, df_prog_ok p ->
   map (fun rc => rc =? 0) (snd (wm_run_full summ1 summN p)) = snd (Spec.run_spec content0 p).
 Proof. exact rd_run_accept. Qed.
 Print Assumptions refine_run_accept.
+
+(* without the guard the statement is FALSE (the guard is necessary): Spec.wstep does not model the refusal of
+   jls_core_signal_def_align; the C, the byte-exact model and DefsModel return JLS_ERROR_PARAMETER_INVALID (5) for
+   entries_per_summary = 2^32 - 1, Spec.run_spec accepts the call *)
+Theorem refine_run_accept_unguarded_refuted :
+  snd (wm_run_full (fun _ _ => (0, 0, 0, 0)) (fun _ _ => (0, 0, 0, 0)) [WSrc rd_cex_src; WSig rd_cex_sig]) = [0; 5] /\
+  snd (Spec.run_spec content0 [WSrc rd_cex_src; WSig rd_cex_sig]) = [true; true] /\
+  df_align_ok rd_cex_sig = false.
+Proof. exact rd_run_accept_unguarded_refuted. Qed.
+Print Assumptions refine_run_accept_unguarded_refuted.
